@@ -169,7 +169,12 @@ fn lex_block_string(lexer: &mut Lexer<'_, TokenKind>) -> bool {
                 return true;
             }
             BlockStringToken::EscapedTripleQuote | BlockStringToken::Other => {}
-            BlockStringToken::Error => unreachable!(),
+            // A character that `Other` does not cover (e.g. one outside the Basic
+            // Multilingual Plane, or a control character): not a valid block string.
+            BlockStringToken::Error => {
+                lexer.extras.error_token = Some(TokenKind::ErrorUnsupportedStringCharacter);
+                return false;
+            }
         }
     }
     lexer.extras.error_token = Some(TokenKind::ErrorUnterminatedBlockString);
